@@ -17,5 +17,6 @@ func (e *ExpFromZeroFunction) String() string {
 }
 
 func (e *ExpFromZeroFunction) Evaluate(value float64) float64 {
-	return e.Multiplier*math.Exp(e.Alpha*value) - e.Multiplier
+	// multiplier * (e^(alpha*value) - 1); Expm1 keeps the digits that exp(x) - 1 cancels for a small exponent
+	return e.Multiplier * math.Expm1(e.Alpha*value)
 }
